@@ -225,6 +225,24 @@ pub fn judge(code: &V, env: &V, rich: Option<Rc<SExp>>, symbols: &HashMap<String
             },
         }
     }
+    if reference.is_err() {
+        // the hierarchical view reports a failure exactly when the consensus evaluator fails
+        fn has_failure(e: &BTreeMap<String, YamlElement>) -> bool {
+            if e.contains_key("Failure") || e.contains_key("Throw") {
+                return true;
+            }
+            e.values().any(|v| match v {
+                YamlElement::Subtree(t) => has_failure(t),
+                YamlElement::Array(a) => a.iter().any(|x| matches!(x, YamlElement::Subtree(t) if has_failure(t))),
+                _ => false,
+            })
+        }
+        if tree.iter().any(has_failure) {
+            st.label("hierarchy-failure-checked");
+        } else {
+            return Err(Viol::new("hierarchy-has-no-failure-entry", "a Failure or Throw entry (the consensus evaluator fails)", format!("{} entries, none reports a failure", tree.len()), case(json!({"entries": tree.len()}))));
+        }
+    }
     for e in &tree {
         if let Some(YamlElement::String(n)) = e.get("Function-Name") {
             let known_name = symbols.values().any(|v| v == n) || n.starts_with("*") || n.is_empty() || n.chars().all(|c| c.is_ascii_hexdigit());
